@@ -405,15 +405,30 @@ func runScenario(sc scenario, tier string, only *request) (*scenarioResult, erro
 		tc := presented.tlsCert(extra...)
 		ccfg.GetClientCertificate = func(*tls.CertificateRequestInfo) (*tls.Certificate, error) { return &tc, nil }
 	}
+	reqs := genRequests(tier, routes, other)
+	if only != nil {
+		reqs = []request{*only}
+	}
+	ocs, err := drive(sc.String(), ts.URL, ccfg, rec, reqs)
+	if err != nil {
+		return nil, err
+	}
+	res.Outcomes = ocs
+	res.ChainQueries = ch.queries
+	return res, nil
+}
+
+// drive sends the requests over fresh TLS connections made with ccfg (one transport per call, so the
+// first request always performs a new handshake) and returns what came back and what reached the
+// recording provider clients.
+func drive(label, tsURL string, ccfg *tls.Config, rec *recorder, reqs []request) ([]outcome, error) {
+	var out []outcome
+	ts := struct{ URL string }{tsURL}
 	tr := &http.Transport{TLSClientConfig: ccfg, ForceAttemptHTTP2: false}
 	defer tr.CloseIdleConnections()
 	hc := &http.Client{Transport: tr, Timeout: 30 * time.Second}
 	wsd := &websocket.Dialer{TLSClientConfig: ccfg, HandshakeTimeout: 30 * time.Second}
 
-	reqs := genRequests(tier, routes, other)
-	if only != nil {
-		reqs = []request{*only}
-	}
 	for _, rq := range reqs {
 		sp := routeTable[rq.Route]
 		before := len(rec.snapshot())
@@ -431,7 +446,7 @@ func runScenario(sc scenario, tier string, only *request) (*scenarioResult, erro
 					if _, _, err := conn.ReadMessage(); err != nil {
 						if ne, ok := err.(interface{ Timeout() bool }); ok && ne.Timeout() {
 							_ = conn.Close()
-							return nil, machErr{fmt.Sprintf("%s %v: websocket did not finish", sc, rq)}
+							return nil, machErr{fmt.Sprintf("%s %v: websocket did not finish", label, rq)}
 						}
 						break
 					}
@@ -451,7 +466,7 @@ func runScenario(sc scenario, tier string, only *request) (*scenarioResult, erro
 			if err != nil {
 				oc.Err = err.Error()
 				if strings.Contains(oc.Err, "Client.Timeout") {
-					return nil, machErr{fmt.Sprintf("%s %v: request did not finish", sc, rq)}
+					return nil, machErr{fmt.Sprintf("%s %v: request did not finish", label, rq)}
 				}
 			} else {
 				_, _ = io.Copy(io.Discard, resp.Body)
@@ -462,10 +477,9 @@ func runScenario(sc scenario, tier string, only *request) (*scenarioResult, erro
 		// handlers record before they answer; the answer has been read completely at this point
 		all := rec.snapshot()
 		oc.Calls = all[before:]
-		res.Outcomes = append(res.Outcomes, oc)
+		out = append(out, oc)
 	}
-	res.ChainQueries = ch.queries
-	return res, nil
+	return out, nil
 }
 
 // ---- oracle on results ----
@@ -478,25 +492,41 @@ type violation struct {
 
 func sigRoute(r string) string { return strings.ReplaceAll(r, " ", "") }
 
-func judge(res *scenarioResult) []violation {
-	sc := res.Scenario
+// verdictInput is one presentation (a certificate shown to one server instance, plus the requests made
+// with it) together with what the oracle says about it. Isolated scenarios and every step of a
+// sequence are judged by the same function: the statement knows no "recently verified" exception.
+type verdictInput struct {
+	Label     string // scenario / sequence description
+	Prefix    string // "" for isolated scenarios, "seq-" for steps of a sequence
+	Present   bool   // a client certificate was presented
+	Sound     bool   // the leaf is the currently valid on-chain certificate of Publisher, in time, client-auth
+	Strict    bool   // sound and presented canonically: must be accepted
+	SigKind   string
+	Reason    string // why it is not sound
+	Publisher string // the account that published (or would have to have published) the certificate: its subject CN
+	DirectOK  bool
+	DirectErr string
+	Outcomes  []outcome
+}
+
+func judgeStep(in verdictInput) []violation {
 	var out []violation
 	add := func(rq *request, sig, f string, a ...interface{}) {
-		out = append(out, violation{Sig: sig, Detail: sc.String() + ": " + fmt.Sprintf(f, a...), Request: rq})
+		out = append(out, violation{Sig: in.Prefix + sig, Detail: in.Label + ": " + fmt.Sprintf(f, a...), Request: rq})
 	}
-	if sc.Present != prNone {
-		if res.DirectOK && !sc.sound() {
-			add(nil, fmt.Sprintf("unauthorized-accept:%s:%s", sc.sigKind(), sc.rejectReason()),
-				"VerifyPeerCertificate accepted a certificate with CN %s that is not the valid on-chain certificate (%s)", res.PresentedCN, sc.rejectReason())
+	if in.Present {
+		if in.DirectOK && !in.Sound {
+			add(nil, fmt.Sprintf("unauthorized-accept:%s:%s", in.SigKind, in.Reason),
+				"VerifyPeerCertificate accepted a certificate with CN %s that is not the valid on-chain certificate (%s)", in.Publisher, in.Reason)
 		}
-		if !res.DirectOK && sc.strict() {
-			add(nil, "false-reject:verify-callback:"+sc.sigKind(), "VerifyPeerCertificate rejected the genuine on-chain certificate: %s", res.DirectErr)
+		if !in.DirectOK && in.Strict {
+			add(nil, "false-reject:verify-callback:"+in.SigKind, "VerifyPeerCertificate rejected the genuine on-chain certificate: %s", in.DirectErr)
 		}
-	} else if !res.DirectOK {
-		add(nil, "false-reject:verify-callback:no-certificate", "VerifyPeerCertificate rejected a connection without client certificate: %s", res.DirectErr)
+	} else if !in.DirectOK {
+		add(nil, "false-reject:verify-callback:no-certificate", "VerifyPeerCertificate rejected a connection without client certificate: %s", in.DirectErr)
 	}
-	for i := range res.Outcomes {
-		oc := &res.Outcomes[i]
+	for i := range in.Outcomes {
+		oc := &in.Outcomes[i]
 		rq := &oc.Request
 		sp := routeTable[rq.Route]
 		scoped := 0
@@ -506,25 +536,36 @@ func judge(res *scenarioResult) []violation {
 			}
 			scoped++
 			switch {
-			case sc.Present == prNone:
+			case !in.Present:
 				add(rq, "scope:unauthenticated:"+sigRoute(rq.Route), "%s reached %s(owner %s) without any client certificate", rq.url("", false), c.Method, c.Owner)
-			case !sc.sound():
-				add(rq, fmt.Sprintf("unauthorized-accept:%s:%s", sc.sigKind(), sc.rejectReason()),
-					"%s reached %s as owner %s over TLS although the certificate is not the valid on-chain one (%s)", rq.url("", false), c.Method, c.Owner, sc.rejectReason())
+			case !in.Sound:
+				add(rq, fmt.Sprintf("unauthorized-accept:%s:%s", in.SigKind, in.Reason),
+					"%s reached %s as owner %s over TLS although the certificate is not the valid on-chain one (%s)", rq.url("", false), c.Method, c.Owner, in.Reason)
 			}
-			if sc.Present != prNone && c.Owner != res.PresentedCN {
-				add(rq, "scope:owner:"+sigRoute(rq.Route), "%s reached %s with owner %s, authenticated certificate CN is %s", rq.url("", false), c.Method, c.Owner, res.PresentedCN)
+			// scope is judged against the account that PUBLISHED the certificate (its subject CN, the
+			// signer of MsgCreateCertificate), never against whatever the middleware extracted
+			if in.Present && c.Owner != in.Publisher {
+				add(rq, "scope:owner:"+sigRoute(rq.Route), "%s reached %s with owner %s, but the certificate was published by / names account %s", rq.url("", false), c.Method, c.Owner, in.Publisher)
 			}
 			if c.IsLease && c.Provider != cast.Provider {
 				add(rq, "scope:provider:"+sigRoute(rq.Route), "%s reached %s with provider %s, this provider is %s", rq.url("", false), c.Method, c.Provider, cast.Provider)
 			}
 		}
-		if sp.Scope != "" && sc.strict() && rq.wellFormed() && scoped == 0 {
+		if sp.Scope != "" && in.Strict && rq.wellFormed() && scoped == 0 {
 			add(rq, "false-reject:"+sigRoute(rq.Route), "%s did not reach the provider for the genuine certificate holder (status %d, error %q)", rq.url("", false), oc.Status, oc.Err)
 		}
-		if sp.Scope == "" && sc.Present == prNone && len(oc.Calls) == 0 {
+		if sp.Scope == "" && !in.Present && len(oc.Calls) == 0 {
 			add(rq, "false-reject:public:"+sigRoute(rq.Route), "%s without client certificate did not reach the provider (status %d, error %q)", rq.url("", false), oc.Status, oc.Err)
 		}
 	}
 	return out
+}
+
+func judge(res *scenarioResult) []violation {
+	sc := res.Scenario
+	return judgeStep(verdictInput{
+		Label: sc.String(), Present: sc.Present != prNone, Sound: sc.sound(), Strict: sc.strict(),
+		SigKind: sc.sigKind(), Reason: sc.rejectReason(), Publisher: res.PresentedCN,
+		DirectOK: res.DirectOK, DirectErr: res.DirectErr, Outcomes: res.Outcomes,
+	})
 }
